@@ -17,15 +17,15 @@ CONFIG = {
         "model/CmpbOrder.v is the hand-written order-parameterised model of ensureImport, includeIO, loadPackage/resolveDependencies/CompilePackage on a PackageSet, OptionsFor, optionsFor and walkOptionMap; the list of unordered iterations it accounts for equals the regenerated MapRangeGen.v (order_sites_agree), each classified as modelled (with its irrelevance lemma), insensitive (loop body commutes or runs at most once) or not observed (lint reports, error texts, a dead log line)",
         "valid bundle (the property's quantifier): within a package no type is exported twice and no file name repeats",
         "the order parameters are arbitrary permutations of what they are given (every listing order, every map iteration order)",
-        "the compile theorem is partial correctness: two runs that both return, return the same; that both return is exercised by the oracle (outcome equality across configurations), not proved",
+        "totality (C14_compile_total_deterministic) assumes what a valid bundle provides: every dependency is in the bundle, the dependency relation is acyclic (a rank function), and the model's fuel exceeds the rank; the Go code has no fuel",
     ],
     "mult_search": 3,
     "refuted": [],
-    "partial": ["C14_compile_deterministic is partial correctness: equal results when both runs return (that both return is checked by the oracle only)"],
+    "partial": [],
 }
 
 MANIFEST = {
     "text": "Theorems over an order-parameterised Gallina model of the compile and print path, for all permutations of every order parameter: the files CompilePackage returns (names, order, content) do not depend on the file listing order, on the iteration order of the dependency map or of the package's file map, on fuel, or on what was compiled earlier on the PackageSet (cache transparency by an invariant on the cache); a generated file's import list is a function of the set of files passed to ensureImport; the exports map is independent of iteration order; printed option order is independent of protobuf's Range order (total order: source line, extension index, full name - the repaired finding 28; the index-only order used before is shown order-dependent by a witness); field options (re-sorted by name) and map-valued options (sorted by key since the fix) are independent of Range order. The list of unordered iterations in the Go code is regenerated with go/types on every run and must equal the model's classified site list. The tie compiles and prints each generated multi-file, multi-package bundle 8x (quick) / 64x (thorough) in-process with shuffled listings, fresh vs reused sets and shuffled call orders, comparing deterministic-marshal bytes and printed text, prints every resulting file, a hand-built descriptor with index-tied extensions and a bundle with a hand-written .proto source 56x / 160x, and checks observed import lists, file orders, printed option orders and map-entry orders against the model.",
-    "note": "Proved for the order skeleton; conversion and link of a single file are parameters (functions). Partial correctness for compilation (equal results when both runs return). Trusted: Coq kernel; the go/types translator; the harness; Go's sort functions as 'a sorted permutation'. All C14 theorems are closed under the global context (no axioms).",
+    "note": "Proved for the order skeleton; conversion and link of a single file are parameters (functions). Trusted: Coq kernel; the go/types translator; the harness; Go's sort functions as 'a sorted permutation'. All C14 theorems are closed under the global context (no axioms).",
     "technique": "Rocq/Coq proof (permutation invariance via uniqueness of strictly sorted lists and extensionality of sorted association lists; cache invariant by induction on fuel) + regenerated map-iteration site list with a computed agreement lemma + repeated shuffled in-process compilation with byte comparison + in-Coq correspondence of observed orders",
 }
